@@ -33,11 +33,15 @@ def units(tier):
     return extra + [
         SL("slice.shutdown_nowait_vs_wait", "x5_shutdown_nowait_vs_wait", 30),
         SL("slice.worker_exit_vs_shutdown_nowait", "x3_worker_exit_vs_submit", 44, params={"with_user": False, "shutdown_thread": True}),
+        H("C05", "lokyverif.harness.c04_contain", "check_feed", t, ["loky.backend.queues:Queue._feed"],
+          "'every already-submitted task runs': the feeder gives the queue slot back exactly once per failed item whatever the failure is (PicklingError, SystemExit from a __reduce__, struct.error / OSError at send), <=4 items"),
         H("C05", M, "check_shutdown_workers", t, [PE + "shutdown_workers", PE + "get_n_children_alive"], "0..3 workers each alive or not, Full raised 0..3 times"),
         H("C05", M, "check_shutdown_workers_small_queue", t, [PE + "shutdown_workers", PE + "get_n_children_alive"],
           "1..3 workers each idle or already past its own exit announcement, call queue with 1..2 free slots (a queue nobody ever empties is the documented give-up path, outside)"),
         H("C05", M, "check_join_internals", t, [PE + "join_executor_internals"], "0..3 workers each alive or not"),
         H("C05", M, "check_flag_shutting_down", t, [PE + "flag_executor_shutting_down"], "0..3 pending, 0..3 workers, kill flag symbolic"),
+        H("C05", "lokyverif.harness.c02_broken", "check_shutdown_twice", 300, ["loky.process_executor:ProcessPoolExecutor.shutdown"],
+          "shutdown(wait=False) followed by shutdown(wait=*, kill_workers=*) on the same object"),
         H("C05", M, "check_shutdown_call", t, ["loky.process_executor:ProcessPoolExecutor.shutdown"], "wait / kill_workers / manager started: all 8 combinations"),
         H("C05", M, "check_exit_registry", t, ["loky.process_executor:ProcessPoolExecutor._start_executor_manager_thread", "loky.process_executor:_python_exit", "loky.process_executor:ProcessPoolExecutor.shutdown"],
           "1..3 executors released by shutdown(wait=False) / plain drop / shutdown(wait=True), with or without the interpreter-exit hook running first"),
